@@ -256,35 +256,24 @@ Qed.
 Definition viol (p : Z) (t : tree) (e : cerr) (n : Z) : Prop :=
   exists v cx, In v (preorder t) /\ n = t_id v /\ In cx (tl (t_kids v))
     /\ Z.abs (fp v - (fp cx + elen cx)) > p
-    /\ (e = Ultra \/ (e = Py TypeErr /\ exists s, In s (tl (t_kids v)) /\ t_len s = None)).
+    /\ e = Ultra.
 
 Lemma check_rest_spec p i age f r :
   (forallb (fun c => Z.abs (age - (f c + elen c)) <=? p) r = true
    /\ check_rest p i age (map (annot f CoAll false) r) = COk (map (annot f CoAll true) r))
   \/ (forallb (fun c => Z.abs (age - (f c + elen c)) <=? p) r = false
-      /\ exists cx e, In cx r /\ Z.abs (age - (f cx + elen cx)) > p
-          /\ check_rest p i age (map (annot f CoAll false) r) = CErr e i
-          /\ (e = Ultra \/ (e = Py TypeErr /\ exists s, In s r /\ t_len s = None))).
+      /\ exists cx, In cx r /\ Z.abs (age - (f cx + elen cx)) > p
+          /\ check_rest p i age (map (annot f CoAll false) r) = CErr Ultra i).
 Proof.
   induction r as [|c r IH].
   - left. split; reflexivity.
   - cbn [map check_rest forallb]. rewrite annot_path.
     destruct (Z.abs (age - (f c + elen c)) >? p) eqn:Eg.
     + right. split; [apply andb_false_iff; left; lia|].
-      exists c. destruct (forallb len_defined (map (annot f CoAll false) r)) eqn:Ed.
-      * exists Ultra. repeat split; [left; reflexivity | lia | left; reflexivity].
-      * exists (Py TypeErr). repeat split; [left; reflexivity | lia |]. right. split; [reflexivity|].
-        clear - Ed. induction r as [|s r IHr]; [discriminate|]. cbn [map forallb] in Ed.
-        apply andb_false_iff in Ed. destruct Ed as [Ed | Ed].
-        -- exists s. split; [right; left; reflexivity|]. rewrite annot_len_defined in Ed. destruct (t_len s); [discriminate | reflexivity].
-        -- destruct (IHr Ed) as [s' [[E | Hs] Hn]].
-           ++ exists s'. split; [left; exact E | exact Hn].
-           ++ exists s'. split; [right; right; exact Hs | exact Hn].
-    + destruct IH as [[Hf Hc] | [Hf [cx [e [Hin [Hv [Hc He]]]]]]]; rewrite Hc.
+      exists c. repeat split; [left; reflexivity | lia].
+    + destruct IH as [[Hf Hc] | [Hf [cx [Hin [Hv Hc]]]]]; rewrite Hc.
       * left. split; [apply andb_true_iff; split; [lia | exact Hf]|]. rewrite annot_coerce. reflexivity.
-      * right. split; [apply andb_false_iff; right; exact Hf|]. exists cx, e. repeat split; [right; exact Hin | exact Hv |].
-        destruct He as [-> | [-> [s [Hs Hn]]]]; [left; reflexivity|]. right. split; [reflexivity|].
-        exists s. split; [right; exact Hs | exact Hn].
+      * right. split; [apply andb_false_iff; right; exact Hf|]. exists cx. repeat split; [right; exact Hin | exact Hv].
 Qed.
 
 Lemma calc_enabled c p t :
@@ -304,12 +293,12 @@ Proof.
       assert (Hkids : forallb (local_okb p) (k0 :: r) = true).
       { apply forallb_forall. intros k Hk. rewrite Forall_forall in IH, Hall.
         destruct (IH k Hk) as [[H _] | [_ [er [n [H _]]]]]; [exact H|]. rewrite (Hall k Hk) in H. discriminate. }
-      destruct (check_rest_spec p i (fp k0 + elen k0) fp r) as [[Hf Hc] | [Hf [cx [er [Hin [Hv [Hc He]]]]]]]; rewrite Hc.
+      destruct (check_rest_spec p i (fp k0 + elen k0) fp r) as [[Hf Hc] | [Hf [cx [Hin [Hv Hc]]]]]; rewrite Hc.
       * left. split; [|reflexivity]. cbn [local_okb tl]. rewrite fp_cons, Hf. exact Hkids.
       * right. split; [cbn [local_okb tl]; rewrite fp_cons, Hf; reflexivity|].
-        exists er, i. split; [reflexivity|]. exists (T i x l e (k0 :: r)), cx.
+        exists Ultra, i. split; [reflexivity|]. exists (T i x l e (k0 :: r)), cx.
         split; [apply in_preorder_self|]. split; [reflexivity|]. split; [exact Hin|]. split; [rewrite fp_cons; exact Hv|].
-        exact He.
+        reflexivity.
   - rewrite Hs. right. split.
     + cbn [local_okb]. apply andb_false_iff. right. apply not_true_is_false. intro H.
       rewrite forallb_forall in H. rewrite (H k Hk) in Hlk. discriminate.
